@@ -61,7 +61,8 @@ CtxAt(t, p, ctx) ==
 ---------------------------------------------------------------------------
 (* faults: tokens, the 1-based offset of the anchor token, and for run faults  *)
 (* the tree that is evaluated                                                  *)
-Fault(name, toks, anchor, tree) == [name |-> name, toks |-> toks, anchor |-> anchor, tree |-> tree]
+Fault(name, toks, anchor, tree) == [name |-> name, toks |-> toks, anchor |-> anchor, tree |-> tree, ty |-> "int"]
+BoolFault(name, toks, anchor, tree) == [name |-> name, toks |-> toks, anchor |-> anchor, tree |-> tree, ty |-> "bool"]
 CompileFaults ==
   {Fault("unknown identifier", <<TId("Zq")>>, 1, NNil),
    Fault("unknown field", <<TId("O"), TOp("."), TId("Zq")>>, 3, NNil),
@@ -89,6 +90,11 @@ MoreFaults ==
    Fault("len of a number", <<TId("len"), TBr("("), TId("I"), TBr(")")>>, 1, NNil),
    Fault("string index into a slice", <<TId("Xs"), TBr("["), TId("S"), TBr("]")>>, 1, NNil),
    Fault("slice of a number", <<TId("I"), TBr("["), TNum("1"), TOp(":"), TBr("]")>>, 1, NNil),
+   Fault("string as the only upper bound of a slice", <<TId("Xs"), TBr("["), TOp(":"), TId("S"), TBr("]")>>, 1, NNil),
+   Fault("string as the only lower bound of a slice", <<TId("Xs"), TBr("["), TId("S"), TOp(":"), TBr("]")>>, 1, NNil),
+   Fault("string as the upper bound of a slice", <<TId("Xs"), TBr("["), TNum("1"), TOp(":"), TId("S"), TBr("]")>>, 1, NNil),
+   Fault("bool as the upper bound of a string slice", <<TId("S"), TBr("["), TOp(":"), TId("B"), TBr("]")>>, 1, NNil),
+   Fault("unknown name as the only upper bound of a slice", <<TId("Xs"), TBr("["), TOp(":"), TId("Zq"), TBr("]")>>, 1, NNil),
    Fault("range over strings", <<TBr("("), TId("S"), TOp(".."), TNum("2"), TBr(")")>>, 1, NNil),
    Fault("comparison of a string with a number", <<TBr("("), TId("S"), TOp("<"), TNum("1"), TBr(")")>>, 1, NNil),
    Fault("equality of a string and a number", <<TBr("("), TId("S"), TOp("=="), TNum("1"), TBr(")")>>, 1, NNil),
@@ -110,8 +116,10 @@ CtxFaults(elem) ==
         Fault("matches on an int element", <<TBr("("), TOp("#"), TOp("matches"), TStr("a"), TBr(")")>>, 1, NNil),
         Fault("logical operator on an int element", <<TBr("("), TOp("#"), TOp("and"), TId("B"), TBr(")")>>, 1, NNil),
         Fault("int element for a string parameter", <<TId("Cat"), TBr("("), TOp("#"), TOp(","), TStr("a"), TBr(")")>>, 1, NNil)}
-  ELSE {Fault("struct element compared with a number", <<TBr("("), TOp("#"), TOp(">"), TNum("1"), TBr(")")>>, 1, NNil),
+  ELSE IF elem \in {"Obj", "*Obj"}
+  THEN {Fault("struct element compared with a number", <<TBr("("), TOp("#"), TOp(">"), TNum("1"), TBr(")")>>, 1, NNil),
         Fault("unknown field of the element", <<TOp("#"), TOp("."), TId("Zq")>>, 1, NNil)}
+  ELSE {}      \* (an element of dynamic or any other type: nothing is a violation by the element type alone)
 
 RunFaults ==
   {Fault("modulo by zero", <<TBr("("), TId("J"), TOp("%"), TId("U8"), TBr(")")>>, 3, NBin("%", NId("J"), NId("U8"))),
@@ -120,9 +128,15 @@ RunFaults ==
    Fault("field of a nil pointer", <<TId("P"), TOp("."), TId("N")>>, 3, NProp(NId("P"), "N", FALSE)),
    Fault("index out of range", <<TId("Xs"), TBr("["), TNum("7"), TBr("]")>>, 2, NIdx(NId("Xs"), NInt(7))),
    \* a name the environment value does not have (compiled without a declared environment type)
-   Fault("name missing at run time", <<TId("Zq")>>, 1, NId("Zq"))}
+   Fault("name missing at run time", <<TId("Zq")>>, 1, NId("Zq")),
+   \* boolean-typed operations that fail at run time: they replace a bool-typed leaf, so the failing operation can be
+   \* the whole operand of `and`, `or`, `not`, a condition or a predicate
+   BoolFault("comparison of a dynamic string with a number", <<TBr("("), TId("Any"), TOp("<"), TNum("1"), TBr(")")>>, 3,
+             NBin("<", NId("Any"), NInt(1))),
+   BoolFault("matches with a dynamic invalid pattern", <<TBr("("), TId("S"), TOp("matches"), TId("T"), TBr(")")>>, 3,
+             NBin("matches", NId("S"), NId("T")))}
 (* the environment values under which the run faults fail *)
-FaultEnv == [U8 |-> IntK("uint8", 0), P |-> PtrNil("Obj"), Xs |-> IntArr(<<1, 2, 3>>)]
+FaultEnv == [U8 |-> IntK("uint8", 0), P |-> PtrNil("Obj"), Xs |-> IntArr(<<1, 2, 3>>), Any |-> Str("abc"), T |-> Str("(")]
 
 Marker == NId("Zq")
 IndexOfMarker(toks) == CHOOSE k \in 1..Len(toks) : toks[k] = TId("Zq")
@@ -140,6 +154,10 @@ Text(sp, layout) ==
   [text |-> (IF layout = "min" THEN TextMin(sp.toks) ELSE TextWild(sp.toks)),
    pos |-> (IF layout = "min" THEN PosMin(sp.toks, sp.anchor) ELSE PosWild(sp.toks, sp.anchor)),
    anchor |-> TokText(sp.toks[sp.anchor])]
+(* the same with every two-word operator `not in` written over two lines (the lexer looks ahead across the line break) *)
+HasNotIn(toks) == \E i \in 1..Len(toks) : toks[i] = TOp("not in")
+Spread(sp) == [toks |-> SpreadNotIn(sp.toks), anchor |-> sp.anchor]
+Texts2(sp) == <<Text(sp, "min"), Text(sp, "wild")>> \o (IF HasNotIn(sp.toks) THEN <<Text(Spread(sp), "wild"), Text(Spread(sp), "min")>> ELSE <<>>)
 
 (* assignments of the members the faulty tree mentions, the fault's own members fixed *)
 FaultAssignments(t2) ==
@@ -148,7 +166,7 @@ FaultAssignments(t2) ==
 
 CompileCase(t, p, f) ==
   LET sp == Spliced(t, p, f)
-  IN [kind |-> "compile", fault |-> f.name, n |-> n, texts |-> <<Text(sp, "min"), Text(sp, "wild")>>]
+  IN [kind |-> "compile", fault |-> f.name, n |-> n, texts |-> Texts2(sp)]
 
 RunCase(t, p, f) ==
   LET sp == Spliced(t, p, f)
@@ -158,7 +176,7 @@ RunCase(t, p, f) ==
                  /\ LET o == Outcome(t2, EnvOf(a), DefaultBudget, {})      \* and this one fails
                     IN ~o.ok /\ o.c # "outside"}
   IN [kind |-> "run", fault |-> f.name, n |-> n, envs |-> envs,
-      texts |-> <<Text(sp, "min"), Text(sp, "wild"), Text(Wrapped(sp), "wild"), Text(Wrapped(sp), "min")>>]
+      texts |-> Texts2(sp) \o <<Text(Wrapped(sp), "wild"), Text(Wrapped(sp), "min")>>]
 
 EmitErr ==
   \* (a constant pattern the parser rejects is reported at the pattern before any other fault is looked at)
@@ -181,7 +199,6 @@ EmitErr ==
              LET sp == Spliced(Tree, p, f)
              IN (f.name = "unknown identifier" /\ sp.anchor < Len(sp.toks) /\ sp.toks[sp.anchor + 1] = TOp("?."))
                 \/ PrintT(ToJson(CompileCase(Tree, p, f)))
-      ELSE TypeAt(Tree, p, "") = "int" =>
-             \A f \in RunFaults :
+      ELSE \A f \in {g \in RunFaults : g.ty = TypeAt(Tree, p, "")} :
                LET c == RunCase(Tree, p, f) IN c.envs = {} \/ PrintT(ToJson(c))
 =============================================================================
